@@ -161,8 +161,17 @@ def rule_file(draw, max_rules=8, depth=2, transforms=True, tag_only_p=3):
     if draw(st.integers(0, 5)) == 0:
         return {'vars': [], 'transforms': [], 'rules': draw(st.lists(plain_rule(tag_only_p), min_size=1, max_size=min(max_rules, 4)))}
     rules = draw(st.lists(rule(depth, tag_only_p), min_size=0, max_size=max_rules))
+    vs = draw(st.lists(variable, max_size=3, unique_by=lambda v: v[0]))
+    if rules and draw(st.integers(0, 3)) == 0:
+        # the documented idiom `is_coffee = anyof("STARBUCKS", "PEETS")`: a top-level variable that reads the description only through
+        # the match functions, used by a categorizing rule - its value differs from transaction to transaction
+        ws = draw(st.lists(lang.word, min_size=1, max_size=2, unique=True))
+        vs = vs + [['is_listed', ['anyof', ws] if len(ws) > 1 or draw(st.booleans()) else ['match', draw(st.sampled_from(['contains', 'startswith', 'regex'])), None, ws[0]]]]
+        i = draw(st.integers(0, len(rules) - 1))
+        rules[i] = dict(rules[i], match=draw(st.sampled_from([['var', 'is_listed'], ['and', [['var', 'is_listed'], rules[i]['match']]], ['or', [rules[i]['match'], ['var', 'is_listed']]],
+                                                               ['not', ['var', 'is_listed']]])))
     return {
-        'vars': draw(st.lists(variable, max_size=3, unique_by=lambda v: v[0])),
+        'vars': vs,
         'transforms': draw(st.lists(transform, max_size=3)) if transforms else [],
         'rules': rules,
     }
@@ -170,7 +179,7 @@ def rule_file(draw, max_rules=8, depth=2, transforms=True, tag_only_p=3):
 
 def patterns_of(rf):
     pats = []
-    for r in rf['rules']:
+    for r in list(rf['rules']) + [{'match': e} for _, e in rf.get('vars', [])]:
         for n in lang.walk(r['match']):
             if n[0] == 'match' and n[1].lower() != 'regex':
                 pats.append(n[3])
